@@ -105,6 +105,12 @@ CHECKS = {
    design_ref="DESIGN.md section 6 C17",
    note=COMMON_NOTE + "Hand-modelled: Model/Subgroup.v. The cryptographic link (resumption PSK in the key schedule) is C13/C18 material; here it is exercised (intruders fail) but not restated as a theorem. Defect F5 repaired (fix: 5a692f47).",
    technique="Coq proof (membership rule over tree model) + creation/join differential on trees with blanks"),
+ "C18": dict(
+   category="proof",
+   text="Coq theorems (Props/C18.v): over abstract collision-free KDFs (hypotheses of the theorems) the RFC 9420 8.4 PSK chain is injective - the PSK secret determines every value, every id (with its nonce) and the order of a list of any length below 2^16 - and so is the epoch secret built on it (also in joiner secret and group context); the chain of Model/KeyScheduleRFC.v, which C13 compares byte for byte with the library, is this chain over HKDF; resolution model of psk/resolver.rs + state_repo.rs: a member that cannot resolve one id resolves nothing, a resumption PSK of another group comes from storage only. Tie / oracle: commits with 1-3 external PSKs (by value / by reference, any order) against members holding the committer's value, another value or nothing; resumption PSKs of earlier epochs against members with retention 1/2/6 and different join epochs; a resumption PSK of another group under different write patterns; joiners with / without the PSKs: acceptance equals the resolution model evaluated in Coq, acceptors share the new epoch, refusers are unchanged, the later arrival of the PSK makes the same commit acceptable.",
+   design_ref="DESIGN.md section 6 C18",
+   note=COMMON_NOTE + "Hand-modelled: Model/PskIdeal.v. Collision-freeness of the KDF is a hypothesis (section variable). Defect F9 (foreign-group resumption PSK served from this group's unwritten epochs) repaired (fix: 02b5e24c).",
+   technique="Coq proof (injectivity of the PSK chain under ideal KDF; resolution model) + PSK-knowledge differential"),
 }
 NOT_YET = {}
 props = [json.loads(l) for l in open(os.path.join(V, "properties.jsonl"))]
